@@ -29,6 +29,12 @@ def workload(tier, seed, scale=1.0):
         for d in range(-2, 3):
             pts.add(c + d)
     pts |= {rand_digits(rnd, n, 0) * s for n in (1, 2, 3, 5) for s in (1, -1)}
+    from ..core import special_values
+    for v in special_values():
+        pts.add(v)
+        pts.add(-v)
+        cmds.append(cmd_tof(v, 'U', cell=('tof-pool', v.bit_length() // 16)))
+        cmds.append(cmd_tof(-v, 'I', cell=('tof-pool-neg', v.bit_length() // 16)))
     for v in sorted(pts):
         cmds.append(cmd_toprim(v, 'I', cell=('toprim', 'I', v.bit_length(), v < 0, v & 3)))
         if v >= 0:
